@@ -137,7 +137,7 @@ def module_tree():
     mod_gates = []
     def visit(path, modpath, cond):
         file_cond[rel(path)] = cond
-        src = blank_comments_strings(open(path).read())
+        src = blank_comments_strings(open(path).read(), keep_strings=True)
         regions = cfg_regions(src)
         for m in re.finditer(r'\b(?:pub(?:\([^)]*\))?\s+)?mod\s+(r#)?(\w+)\s*;', src):
             name = m.group(2)
@@ -164,7 +164,7 @@ def refs():
         if r not in file_cond:
             unparsed.append(r)
             continue
-        src = blank_comments_strings(open(p).read())
+        src = blank_comments_strings(open(p).read(), keep_strings=True)
         regions = cfg_regions(src)
         def ctx(pos):
             return conj([file_cond[r]] + [c for s, e, c, a in regions if s <= pos < e])
@@ -199,14 +199,15 @@ def refs():
     tdir = os.path.join(REPO_SRC, 'common', 'tools')
     for f in sorted(os.listdir(tdir)):
         if f.endswith('.rs') and f != 'mod.rs':
-            s = blank_comments_strings(open(os.path.join(tdir, f)).read())
-            for m in re.finditer(r'pub\(crate\)\s+(?:fn|struct|enum|trait|type|const)\s+(\w+)', s):
+            s = blank_comments_strings(open(os.path.join(tdir, f)).read(), keep_strings=True)
+            for m in re.finditer(r'^pub\(crate\)\s+(?:fn|struct|enum|trait|type|const)\s+(\w+)', s, re.M):
+                # top-level items only (methods are reached through their type)
                 tools_items[m.group(1)] = 'crate::common::tools::' + f[:-3]
     for p in files():
         r = rel(p)
         if r not in file_cond:
             continue
-        src = blank_comments_strings(open(p).read())
+        src = blank_comments_strings(open(p).read(), keep_strings=True)
         regions = cfg_regions(src)
         def ctx(pos):
             return conj([file_cond[r]] + [c for s, e, c, a in regions if s <= pos < e])
@@ -240,7 +241,7 @@ def split_brace(s):
 
 def empty_gate():
     """the compile_error! gate of supported_traits.rs"""
-    src = blank_comments_strings(open(os.path.join(REPO_SRC, 'supported_traits.rs')).read())
+    src = blank_comments_strings(open(os.path.join(REPO_SRC, 'supported_traits.rs')).read(), keep_strings=True)
     for s, e, c, a in cfg_regions(src):
         if 'compile_error' in src[s:e]:
             return c
